@@ -67,8 +67,13 @@ pub broadcast proof fn b_cat_push(ps: Seq<Seq<u8>>, p: Seq<u8>)
 {
     lemma_cat_push(ps, p);
 }
+pub broadcast proof fn b_skip0<A>(s: Seq<A>)
+    ensures #[trigger] s.skip(0) == s
+{
+    assert(s.skip(0) =~= s);
+}
 pub broadcast group seq_events {
-    b_skip_push, b_push_drop_last, b_pieces_push, b_cat_push,
+    b_skip_push, b_push_drop_last, b_pieces_push, b_cat_push, b_skip0,
 }
 
 pub trait AsyncRead: Sized {
@@ -76,27 +81,64 @@ pub trait AsyncRead: Sized {
     #[verifier::prophetic]
     spec fn end_hist(&self) -> Seq<Ev>;
     spec fn limit(&self) -> nat;
+    // ghost identity of the underlying object: never changed by any operation.  Immutable
+    // attributes of wrapper readers (e.g. the byte budget of `Take`) are functions of it.
+    spec fn rid(&self) -> int;
+    #[verifier::prophetic]
+    spec fn end_rid(&self) -> int;
     proof fn resolved(&self)
         requires has_resolved(*self)
-        ensures self.hist() == self.end_hist();
+        ensures self.hist() == self.end_hist(), self.rid() == self.end_rid();
     proof fn within_limit(&self)
         ensures bytes_of(self.hist()).len() <= self.limit();
     fn read(&mut self, buf: &mut [u8]) -> (r: Result<usize, std::io::Error>)
         ensures
             final(buf)@.len() == old(buf)@.len(),
-            final(self).end_hist() == old(self).end_hist(),
-            final(self).limit() == old(self).limit(),
-            bytes_of(final(self).hist()).len() <= final(self).limit(),
-            r is Ok ==> bytes_of(final(self).hist()).len() == bytes_of(old(self).hist()).len() + r->Ok_0,
+            (*final(self)).end_hist() == (*old(self)).end_hist(),
+            (*final(self)).limit() == (*old(self)).limit(),
+            (*final(self)).rid() == (*old(self)).rid(), (*final(self)).end_rid() == (*old(self)).end_rid(),
+            bytes_of((*final(self)).hist()).len() <= (*final(self)).limit(),
+            r is Ok ==> bytes_of((*final(self)).hist()).len() == bytes_of((*old(self)).hist()).len() + r->Ok_0,
             match r {
-                Ok(n) => n <= old(buf)@.len() && (if n == 0 { final(self).hist() == old(self).hist().push(Ev::Eof) }
-                         else { final(self).hist() == old(self).hist().push(Ev::Data(final(buf)@.subrange(0, n as int))) }),
-                Err(_) => final(self).hist() == old(self).hist().push(Ev::Fail),
+                Ok(n) => n <= old(buf)@.len() && (if n == 0 { (*final(self)).hist() == (*old(self)).hist().push(Ev::Eof) }
+                         else { (*final(self)).hist() == (*old(self)).hist().push(Ev::Data(final(buf)@.subrange(0, n as int))) }),
+                Err(_) => (*final(self)).hist() == (*old(self)).hist().push(Ev::Fail),
             };
+    // futures-lite AsyncReadExt::read_to_end: reads until Ok(0) or an error, appending to `buf`
+    fn read_to_end(&mut self, buf: &mut Vec<u8>) -> (r: Result<usize, std::io::Error>)
+        ensures
+            (*final(self)).end_hist() == (*old(self)).end_hist(),
+            (*final(self)).limit() == (*old(self)).limit(),
+            (*final(self)).rid() == (*old(self)).rid(), (*final(self)).end_rid() == (*old(self)).end_rid(),
+            (*old(self)).hist().is_prefix_of((*final(self)).hist()),
+            read_to_end_post((*final(self)).hist().skip((*old(self)).hist().len() as int), old(buf)@, final(buf)@, r);
+}
+pub open spec fn read_to_end_post(evs: Seq<Ev>, b0: Seq<u8>, b1: Seq<u8>, r: Result<usize, std::io::Error>) -> bool {
+    &&& evs.len() >= 1
+    &&& data_only(evs.drop_last())
+    &&& match r {
+        Ok(n) => evs.last() is Eof && b1 == b0 + bytes_of(evs) && n == bytes_of(evs).len(),
+        Err(_) => evs.last() is Fail && b0.is_prefix_of(b1) && b1.is_prefix_of(b0 + bytes_of(evs)),
+    }
+}
+// `&mut R` is a reader too (futures-io: `impl<T: AsyncRead + Unpin> AsyncRead for &mut T`): its
+// events are the events of the referent, and giving up the handle gives back the referent.
+impl<T: AsyncRead> AsyncRead for &mut T {
+    open spec fn hist(&self) -> Seq<Ev> { (**self).hist() }
+    #[verifier::prophetic]
+    open spec fn end_hist(&self) -> Seq<Ev> { mut_ref_future(*self).hist() }
+    open spec fn limit(&self) -> nat { (**self).limit() }
+    open spec fn rid(&self) -> int { (**self).rid() }
+    #[verifier::prophetic]
+    open spec fn end_rid(&self) -> int { mut_ref_future(*self).rid() }
+    proof fn resolved(&self) {}
+    proof fn within_limit(&self) { (**self).within_limit(); }
+    fn read(&mut self, buf: &mut [u8]) -> (r: Result<usize, std::io::Error>) { (**self).read(buf) }
+    fn read_to_end(&mut self, buf: &mut Vec<u8>) -> (r: Result<usize, std::io::Error>) { (**self).read_to_end(buf) }
 }
 pub broadcast proof fn reader_resolved<R: AsyncRead>(r: R)
     requires #[trigger] has_resolved(r)
-    ensures r.hist() == r.end_hist()
+    ensures r.hist() == r.end_hist(), r.rid() == r.end_rid()
 { r.resolved(); }
 
 pub trait AsyncWrite: Sized {
@@ -108,16 +150,25 @@ pub trait AsyncWrite: Sized {
         ensures self.cur() == self.end();
     fn write_all(&mut self, buf: &[u8]) -> (r: Result<(), std::io::Error>)
         ensures
-            final(self).end() == old(self).end(),
+            (*final(self)).end() == (*old(self)).end(),
             match r {
-                Ok(()) => final(self).cur() == old(self).cur() + buf@,
-                Err(_) => old(self).cur().is_prefix_of(final(self).cur())
-                          && final(self).cur().is_prefix_of(old(self).cur() + buf@),
+                Ok(()) => (*final(self)).cur() == (*old(self)).cur() + buf@,
+                Err(_) => (*old(self)).cur().is_prefix_of((*final(self)).cur())
+                          && (*final(self)).cur().is_prefix_of((*old(self)).cur() + buf@),
             };
     fn flush(&mut self) -> (r: Result<(), std::io::Error>)
-        ensures final(self).end() == old(self).end(), final(self).cur() == old(self).cur();
+        ensures (*final(self)).end() == (*old(self)).end(), (*final(self)).cur() == (*old(self)).cur();
     fn close(&mut self) -> (r: Result<(), std::io::Error>)
-        ensures final(self).end() == old(self).end(), final(self).cur() == old(self).cur();
+        ensures (*final(self)).end() == (*old(self)).end(), (*final(self)).cur() == (*old(self)).cur();
+}
+impl<T: AsyncWrite> AsyncWrite for &mut T {
+    open spec fn cur(&self) -> Seq<u8> { (**self).cur() }
+    #[verifier::prophetic]
+    open spec fn end(&self) -> Seq<u8> { mut_ref_future(*self).cur() }
+    proof fn resolved(&self) {}
+    fn write_all(&mut self, buf: &[u8]) -> (r: Result<(), std::io::Error>) { (**self).write_all(buf) }
+    fn flush(&mut self) -> (r: Result<(), std::io::Error>) { (**self).flush() }
+    fn close(&mut self) -> (r: Result<(), std::io::Error>) { (**self).close() }
 }
 pub broadcast proof fn writer_resolved<W: AsyncWrite>(w: W)
     requires #[trigger] has_resolved(w)
